@@ -368,7 +368,7 @@ SOURCES = [('dict', 0, 'pickle'), ('dict', 1, 'pickle'), ('dict', 2, 'pickle'),
            ('dict', 3, 'from_dict'),
            ('list', 0, 'pickle'), ('list', 1, 'pickle'), ('list', 2, 'copy'),
            ('list', 3, 'pickle'), ('list', 5, 'wu'), ('list', 4, 'tuple'),
-           ('list', 7, 'pickle'), ('dict', 7, 'pickle')]
+           ('list', 7, 'pickle'), ('dict', 7, 'pickle'), ('list', 0, 'wu')]
 
 
 def classify(prog):
